@@ -2,7 +2,7 @@
     Property theorems only.  The statements are about [combine_paths], the model of
     sciparse::path::combinator::combine, for every hash function standing for SHA-256 and every
     HashMap iteration order (any function returning a permutation). *)
-From Sci Require Import Combine.Model Combine.Spec Combine.Obs Combine.Proofs Combine.ProofsC19 Combine.ProofsC04 Combine.ProofsMeta Combine.ProofsPath Combine.ProofsWF Combine.SpecRules Combine.ProofsSound Combine.ProofsIfaces Combine.ProofsOrder Combine.ProofsComplete Combine.ProofsGraph Combine.ProofsPerm Combine.ProofsTies Combine.ProofsHops Combine.ProofsLoopfree.
+From Sci Require Import Combine.Model Combine.Spec Combine.Obs Combine.Proofs Combine.ProofsC19 Combine.ProofsC04 Combine.ProofsMeta Combine.ProofsPath Combine.ProofsWF Combine.SpecRules Combine.ProofsSound Combine.ProofsIfaces Combine.ProofsOrder Combine.ProofsComplete Combine.ProofsGraph Combine.ProofsPerm Combine.ProofsTies Combine.ProofsHops Combine.ProofsLoopfree Combine.ProofsSorted.
 From Coq Require Import Permutation Sorted.
 Local Open Scope N_scope.
 
@@ -65,6 +65,35 @@ Proof.
   exact (combine_ifaces_twice_cost _ _ _ _ _ _ _ _ _ _ _ _ Hv He Hwf Hout Hp Hm Hi).
 Qed.
 Print Assumptions cost_is_link_count.
+
+(** Cheapest first, without the hypothesis of [combine_sorted_partial]: for a well-formed
+    segment set in which no peer hop field has the (ConsIngress, ConsEgress) pair of a regular
+    hop field ([peer_sig_distinctb], a decidable condition on the INPUT that the correspondence
+    evaluates on every well-formed case), and a fingerprint hash that is injective on the
+    candidates of this call (equal fingerprints => equal hop-field interface sequences; the
+    fingerprint hashes exactly source, destination and that sequence), the returned list is
+    sorted by cost -- which by [cost_is_link_count] is the number of inter-AS links, half the
+    interface count.  Reason: a well-formed use of a segment contributes exactly one hop field
+    with ConsEgress = 0 (its leaf), so the interface sequence determines the number of segments,
+    the number of hop fields and whether a peer hop field occurs, hence the cost; a duplicate
+    that replaces an entry therefore has the cost of the entry it replaces. *)
+Theorem combine_sorted :
+  forall Hid Hfp ord_v ord_e src dst cores non_cores out cand,
+    order_ok ord_v ord_e ->
+    Forall wf_segment (cores ++ non_cores) -> peer_sig_distinctb (cores ++ non_cores) = true ->
+    combine_paths Hid Hfp ord_v ord_e src dst cores non_cores = Ok out ->
+    candidate_paths Hid Hfp ord_v ord_e src dst cores non_cores = Ok cand ->
+    (forall x y, In x cand -> In y cand -> sp_fp x = sp_fp y -> hop_sigs x = hop_sigs y) ->
+    StronglySorted N.le (map path_cost out).
+Proof.
+  intros Hid Hfp ord_v ord_e src dst cores non_cores out cand Hord Hwf Hd Hout Hcand Hinj.
+  destruct (N.eq_dec src dst) as [E|Hne].
+  - unfold combine_paths in Hout. rewrite (proj2 (N.eqb_eq src dst) E) in Hout. inversion Hout. constructor.
+  - apply (combine_sorted_partial Hid Hfp ord_v ord_e src dst cores non_cores out cand Hord Hout Hcand).
+    intros x y Hx Hy Hfp'. destruct Hord as [Hv He].
+    exact (combine_fp_cost Hid Hfp ord_v ord_e src dst cores non_cores cand Hv He Hwf Hd Hne Hcand x y Hx Hy (Hinj x y Hx Hy Hfp')).
+Qed.
+Print Assumptions combine_sorted.
 
 (** Each route once: no two returned paths have the same source, destination and sequence of
     hop-field (ConsIngress, ConsEgress) pairs.  Holds for every input and every hash function. *)
@@ -333,4 +362,28 @@ Proof.
     + eexists 2, _. split; [reflexivity|]. split; [reflexivity|]. cbn. repeat split; auto; discriminate.
     + exists (JAS 3). split; [|reflexivity].
       eexists 3, _. split; [reflexivity|]. split; [reflexivity|]. cbn. repeat split; auto; discriminate.
+Qed.
+
+(** Non-vacuity of [combine_sorted]: a peering topology (core 1; children 2, 3; 4 below 2 and
+    below 1; peering 2--3) whose segment set satisfies all hypotheses, with the structural hash,
+    for the request 2 -> 4 (a peering route and a core route of equal cost, and a longer one). *)
+Example combine_sorted_example :
+  let s12 := mkSeg 1700000000 1 [mkAE 1 2 1400 0 (mkHF 63 0 11 1) []; mkAE 2 0 1400 1300 (mkHF 63 21 0 2) [mkPE 3 31 1250 (mkHF 60 25 0 3)]] in
+  let s134 := mkSeg 1700000000 2 [mkAE 1 3 1400 0 (mkHF 63 0 12 4) []; mkAE 3 4 1400 1300 (mkHF 63 32 33 5) [mkPE 2 25 1250 (mkHF 60 31 33 6)];
+                                  mkAE 4 0 1400 1300 (mkHF 63 41 0 7) []] in
+  let s14 := mkSeg 1700000000 3 [mkAE 1 4 1400 0 (mkHF 63 0 13 8) []; mkAE 4 0 1400 1300 (mkHF 63 42 0 9) []] in
+  let ncs := [s12; s134; s14] in
+  Forall wf_segment ([] ++ ncs) /\ peer_sig_distinctb ([] ++ ncs) = true
+  /\ exists cand out,
+       candidate_paths (be_val 0) (be_val 0) (fun _ l => l) (fun _ _ l => l) 2 4 [] ncs = Ok cand
+       /\ fp_faithfulb cand = true
+       /\ combine_paths (be_val 0) (be_val 0) (fun _ l => l) (fun _ _ l => l) 2 4 [] ncs = Ok out
+       /\ map path_cost out = [2; 2; 3].
+Proof.
+  cbv zeta. split; [|split].
+  - cbn [app]. constructor; [apply wf_segb_sound; vm_compute; reflexivity|].
+    constructor; [apply wf_segb_sound; vm_compute; reflexivity|].
+    constructor; [apply wf_segb_sound; vm_compute; reflexivity|constructor].
+  - vm_compute. reflexivity.
+  - eexists _, _. split; [vm_compute; reflexivity|]. split; [vm_compute; reflexivity|]. split; vm_compute; reflexivity.
 Qed.
